@@ -1349,7 +1349,7 @@ def run_defaults(ctx: Ctx, n_cases):
         if st_ != "ok":
             raise common.InfraError(f"defaults reply {rep}")
         w = (int(toks[0]), int(toks[1]), float(common.from_wire(toks[2])), float(common.from_wire(toks[3])))
-        if w[:2] != real[:2] or any(abs(a - b) > 2.0 ** -50 * abs(b) for a, b in zip(w[2:], real[2:])):
+        if w[:2] != real[:2] or any(not (abs(a - b) <= 2.0 ** -50 * abs(b)) for a, b in zip(w[2:], real[2:])):   # NaN fails
             ctx.disagree("defaults", case, f"{case['ctl']}({case['args']}): implementation installs (max_steps, patience, decreasing, "
                                            f"tol)={real}, model {w}")
             # the documented defaults themselves are the oracle
@@ -2129,11 +2129,16 @@ def check_opt_real(ctx: Ctx, case):
         return None
     D = U.rnd(case["d"], case["dtype"])
     obs, amb = [], False
+    nonfinite = not all(U.finite_all(r[:2]) for r in rec)
+    if nonfinite:
+        # a genuine optimizer may diverge (inf / NaN loss): that is the optimizer's behaviour (C08), the scheduler's decisions
+        # on such readings are still specified (IEEE comparisons: NaN never counts as a non-decrease) and are checked
+        ctx.count("drv.optimize.real.nonfinite_readings")
     for last, loss, rc in rec:
-        ex, fl = U.abs_nodec(last, loss, D, case["dtype"])
+        ex, fl = (U.abs_nodec_ieee if nonfinite else U.abs_nodec)(last, loss, D, case["dtype"])
         amb = amb or ex != fl
         obs.append((ex, False, rc is not None and rc > 0))
-    if amb or any(not math.isfinite(v) for r in rec for v in r[:2]):
+    if amb:
         ctx.count("drv.optimize.real.skipped_ambiguous")
         return None
     first = U.spec_first_stop("sop", case["steps"], case["patience"], obs)
@@ -2144,6 +2149,8 @@ def check_opt_real(ctx: Ctx, case):
         ctx.fail(dict(case, recorded=rec), f"bound: {len(rec)} optimizer steps > steps={case['steps']}")
     if first:
         ctx.count("drv.optimize.real.cause." + "+".join(U.spec_causes("sop", case["steps"], case["patience"], obs, first - 1)))
+    if nonfinite:
+        return None      # the 192-bit model line carries finite values only; the IEEE oracle above has checked the run
     c2 = dict(case, kind="num.sop", D=D, vkind="t0d", has_reject=rec[0][2] is not None if rec else False, script=rec)
     return c2, codes
 
@@ -2341,8 +2348,13 @@ def check_mpc(ctx: Ctx, case):
         if not passed_ok(ctx, dict(case, call=ci), "MPC.forward", rec, expect[:len(rec)], "float64" if not case["real_lqr"] else "float32"):
             return None
         obs, last, amb = [], None, False
+        nonfinite = not all(U.finite_all(v) for v in rec)
+        if nonfinite:
+            # a NaN / inf cost reached the stepper: its decisions are still specified (IEEE comparisons) and are checked;
+            # the non-finite cost itself is reported — for a finite valid input the LQR must not produce one
+            ctx.fail(dict(case, call=ci), f"non-finite result: MPC.forward handed a non-finite cost to the stepper: {rec}")
         for v in rec:
-            nd, bl, a = U.rtb_obs_exact(last, v, D, TOL, "float64" if not case["real_lqr"] else "float32")
+            nd, bl, a = (U.rtb_obs_ieee if nonfinite else U.rtb_obs_exact)(last, v, D, TOL, "float64" if not case["real_lqr"] else "float32")
             amb = amb or a
             obs.append((nd, bl, False))
             last = v
@@ -2354,8 +2366,9 @@ def check_mpc(ctx: Ctx, case):
         out.append((loop_line("mpc", case["steps"], case["patience"], case["k_inits"], code0, [U.obs_code(*o) for o in obs]),
                     iters, lqr_calls, U.ctl_code(st)))
         dtm = "float64" if not case["real_lqr"] else "float32"
-        out.append((fwd_line(case["steps"], case["patience"], case["k_inits"], U.rnd(D, dtm), U.rnd(TOL, dtm), code0, rec),
-                    iters, lqr_calls, U.ctl_code(st)))
+        if not nonfinite:
+            out.append((fwd_line(case["steps"], case["patience"], case["k_inits"], U.rnd(D, dtm), U.rnd(TOL, dtm), code0, rec),
+                        iters, lqr_calls, U.ctl_code(st)))
     return out
 
 
@@ -2363,7 +2376,7 @@ def passed_ok(ctx, case, name, rec, expect, dtype) -> bool:
     """the losses handed to stepper.step are the per-batch-element losses the driver computed"""
     tol = 64 * common.EPS[dtype]
     for i, (r, e) in enumerate(zip(rec, expect)):
-        if len(r) != len(e) or any(abs(a - b) > tol * max(abs(a), abs(b), 1e-30) for a, b in zip(r, e)):
+        if len(r) != len(e) or any(not (abs(a - b) <= tol * max(abs(a), abs(b), 1e-30)) for a, b in zip(r, e)):   # NaN fails
             ctx.fail(case, f"loss-passed: {name} iteration {i}: stepper.step received {r[:4]} but the driver's per-element "
                            f"losses are {e[:4]}")
             return False
@@ -2553,8 +2566,11 @@ def check_icp(ctx: Ctx, case):
             if not passed_ok(ctx, dict(case, call=ci), "ICP.forward", rec, expect[:len(rec)], case["dtype"]):
                 return None
             obs, last, amb = [], None, False
+            nonfinite = not all(U.finite_all(v) for v in rec)
+            if nonfinite:
+                ctx.fail(dict(case, call=ci), f"non-finite result: ICP.forward handed a non-finite error to the stepper: {rec[:6]}")
             for v in rec:
-                nd, bl, a = U.rtb_obs_exact(last, v, D, TOL, case["dtype"])
+                nd, bl, a = (U.rtb_obs_ieee if nonfinite else U.rtb_obs_exact)(last, v, D, TOL, case["dtype"])
                 amb = amb or a
                 obs.append((nd, bl, False))
                 last = v
@@ -2565,7 +2581,8 @@ def check_icp(ctx: Ctx, case):
                                    case["steps"], obs, len(rec), n_svd[0], pc0, st, codes)
             out.append((loop_line("icp", case["steps"], case["patience"], 0, code0, [U.obs_code(*o) for o in obs]),
                         len(rec), n_svd[0], U.ctl_code(st)))
-            out.append((fwd_line(case["steps"], case["patience"], 0, D, TOL, code0, rec), len(rec), n_svd[0], U.ctl_code(st)))
+            if not nonfinite:
+                out.append((fwd_line(case["steps"], case["patience"], 0, D, TOL, code0, rec), len(rec), n_svd[0], U.ctl_code(st)))
     finally:
         icpmod.knn, icpmod.svdtf = oknn, osvd
     return out
@@ -2795,6 +2812,9 @@ def guarded(ctx: Ctx, case, fn, *args):
         return fn(*args)
     except common.InfraError:
         raise
+    except U.NonFinite as e:
+        ctx.fail(case, str(e))
+        return None
     except Exception as e:
         tb = traceback.format_exc()
         if "/pypose/" not in tb:
